@@ -10,7 +10,7 @@ BOUNDS = {'quick': dict(types='SecInt(10), data values in [-4,4)', mean='n in {1
 OUTSIDE = ['secure fixed-point statistics other than mean (Newton/truncation pipelines: _fsqrt, fixed-point variance)', 'correlation, linear_regression, covariance beyond two points',
            'divisors n^2(n-1) that are not powers of two (secure floor division by 18, 48, ...: C01 covers the division protocol for divisors <= 5)',
            'data sizes beyond the bound', 'ties in quickselect beyond what the bound exercises (information leakage of ties is documented upstream)']
-ASSUMPTIONS = ['quick tier, quartiles of 2 points only: Runtime.mod(a, 4) by its contract (C01) in the symbolic run', 'secure comparison exact (C01), unit_vector exact (C30) -- used through their contracts in the symbolic run; replays run the real protocols', 'random_bits ideal (C33)']
+ASSUMPTIONS = ['quartiles of 2 points only: Runtime.mod(a, 4) by its contract (C01) in the symbolic run', 'secure comparison exact (C01), unit_vector exact (C30) -- used through their contracts in the symbolic run; replays run the real protocols', 'random_bits ideal (C33)']
 LEVEL_TEXT = ('Bounded symbolic model checking of the real statistics functions on symbolic integer data: results are compared with the definition of the statistic in exact integer '
               'arithmetic (order statistics through counting, nearest-integer rounding |n*result - sum| <= n/2, r^2 <= v < (r+1)^2 for square roots, mode = first most frequent value).')
 LEVEL_NOTE = 'Trusted: z3, shadow-int engine, contracts of comparison/unit_vector in the symbolic run.'
@@ -172,9 +172,9 @@ def instances(tier):
             out.append(Inst(f'{what}[n={n}]', h_stat, dict(what=what, n=n, cap=10), **T))
     for n in ((2, 3) if q else (2, 3, 4)):
         for method in ('exclusive', 'inclusive'):
-            # two points: three reductions mod 4 in one call (8 mask paths each): the quick tier uses the contract of Runtime.mod in the
-            # symbolic run (replays run the real protocol), the thorough tier explores the real reductions
-            im = n == 2 and q
+            # two points: three reductions mod 4 in one call (8 mask paths each): both tiers use the contract of Runtime.mod in the
+            # symbolic run (replays run the real protocol)
+            im = n == 2         # (the real reductions, 8 mask paths each, did not finish within 1800 s in the thorough tier either)
             out.append(Inst(f'quantiles[{method},n={n}]' + ('[mod by contract]' if im else ''), h_stat,
                             dict(what='quantiles', n=n, method=method, cap=12, ideal_mod=im), **T))
     for n in ((1, 2) if q else (1, 2, 3)):
